@@ -246,6 +246,34 @@ var bitLemmas = []bitLemma{
 			}
 			return "(= " + popD(fmt.Sprintf("(bvshl w #x%016x)", 64-k)) + " " + wcntD("w", k) + ")"
 		}},
+	{Name: "popcnt-shl-any", PerK: true,
+		Axiom: "(forall ((w (_ BitVec 64)) (k Int)) (! (=> " + kRange + " (= (popcnt (bvshl w (shamt k))) (wcnt w (- 64 k)))) :pattern ((popcnt (bvshl w (shamt k))))))",
+		Proof: func(k int) string {
+			return "(= " + popD(fmt.Sprintf("(bvshl w #x%016x)", k)) + " " + wcntD("w", 64-k) + ")"
+		}},
+	{Name: "popcnt-lshr-any", PerK: true,
+		Axiom: "(forall ((w (_ BitVec 64)) (k Int)) (! (=> " + kRange + " (= (popcnt (bvlshr w (shamt k))) (- (popcnt w) (wcnt w k)))) :pattern ((popcnt (bvlshr w (shamt k))))))",
+		Proof: func(k int) string {
+			return "(= " + popD(fmt.Sprintf("(bvlshr w #x%016x)", k)) + " (- " + popD("w") + " " + wcntD("w", k) + "))"
+		}},
+	{Name: "popcnt-shl-or-lshr", PerK: true,
+		Axiom: "(forall ((a (_ BitVec 64)) (b (_ BitVec 64)) (k Int) (m Int)) (! (=> (and (< 0 k) (< k 64) (= m (- 64 k))) (= (popcnt (bvor (bvshl a (shamt k)) (bvlshr b (shamt m)))) (- (+ (wcnt a m) (popcnt b)) (wcnt b m)))) :pattern ((popcnt (bvor (bvshl a (shamt k)) (bvlshr b (shamt m)))))))",
+		Proof: func(k int) string {
+			if k == 0 {
+				return "true"
+			}
+			return "(= " + popD(fmt.Sprintf("(bvor (bvshl a #x%016x) (bvlshr b #x%016x))", k, 64-k)) + " (- (+ " + wcntD("a", 64-k) + " " + popD("b") + ") " + wcntD("b", 64-k) + "))"
+		}},
+	{Name: "wcnt-high-zero", PerK: true,
+		Axiom: "(forall ((w (_ BitVec 64)) (k Int) (j Int)) (! (=> (and (<= 0 k) (<= k 64) (= (popcnt w) (wcnt w k)) (<= k j) (< j 64)) (not (bitU w j))) :pattern ((wcnt w k) (bitU w j))))",
+		Proof: func(k int) string {
+			return "(=> (= " + popD("w") + " " + wcntD("w", k) + ") " + forallJ(func(j int) string {
+				if j >= k {
+					return "(not " + bitD("w", j) + ")"
+				}
+				return "true"
+			}) + ")"
+		}},
 	{Name: "wcnt-popcnt-high-mask", PerK: true,
 		Axiom: "(forall ((w (_ BitVec 64)) (k Int)) (! (=> " + kRange + " (= (popcnt (bvand w (bvshl " + ones + " (shamt k)))) (- (popcnt w) (wcnt w k)))) :pattern ((popcnt (bvand w (bvshl " + ones + " (shamt k)))))))",
 		Proof: func(k int) string {
